@@ -20,6 +20,11 @@ STORE = BS + "BlockStore."
 _SCHEMA: Dict[int, Schema] = {}
 
 
+# sort keys that order (position, value) pairs of a dict's items() by position: lambda i: i[0], operator.itemgetter(0), or the default
+# tuple order (positions are dict keys, hence distinct, so the values are never compared)
+POSITION_KEYS = (("lam", 1, ("s", ("v", "λ0"), C(0))), ("call", ("g", "ext:operator.itemgetter"), (C(0),), ()), None)
+
+
 def schema(ck: Check) -> Schema:
     k = id(ck.repo)
     if k not in _SCHEMA:
@@ -279,7 +284,7 @@ def r08_1(ck: Check) -> None:
             it = a[3][0][0]
             if not (it[0] == "call" and it[1] == ("g", "builtin:sorted") and len(it[2]) == 1
                     and it[2][0] == ("call", ("a", ("a", ("e", dom, 1), coll), "items"), (), ())
-                    and dict(it[3]).get("key") == ("lam", 1, ("s", ("v", "λ0"), C(0))) and a[2] == ("e", it, 1)):
+                    and dict(it[3]).get("key") in POSITION_KEYS and a[2] == ("e", it, 1)):
                 good = False
                 detail = "%s are not taken from sorted(builder.%s.items(), key=position) values" % (coll, coll)
                 break
